@@ -54,16 +54,22 @@ def decide (safeKeys : List Bytes) (onlySafe : Bool) (key : Bytes) : Verdict :=
 
 def addUnique (x : Bytes) (l : List Bytes) : List Bytes := if l.contains x then l else l ++ [x]
 
-def stepLine (safeKeys : List Bytes) (onlySafe : Bool) (st : State) (line : Bytes) : State :=
+def sTrue : Bytes := [116, 114, 117, 101]
+
+/-- a line of `git config -l`: `key=value`, or the bare key of a value-less entry — which Git reads as
+    the boolean true -/
+def kvOf (line : Bytes) : Bytes × Bytes :=
   match splitKV line [] with
-  | none => st
-  | some (key, val) =>
-    match decide safeKeys onlySafe key with
-    | .skip => st
-    | .ignore => { st with ignored := st.ignored ++ [key] }
-    | .store => { st with vals := st.vals ++ [(key, val)] }
-    | .storeExt n => { st with vals := st.vals ++ [(key, val)], exts := addUnique n st.exts }
-    | .storeRemote n => { st with vals := st.vals ++ [(key, val)], remotes := addUnique n st.remotes }
+  | some kv => kv
+  | none => (line, sTrue)
+
+def stepLine (safeKeys : List Bytes) (onlySafe : Bool) (st : State) (line : Bytes) : State :=
+  match decide safeKeys onlySafe (kvOf line).1 with
+  | .skip => st
+  | .ignore => { st with ignored := st.ignored ++ [(kvOf line).1] }
+  | .store => { st with vals := st.vals ++ [kvOf line] }
+  | .storeExt n => { st with vals := st.vals ++ [kvOf line], exts := addUnique n st.exts }
+  | .storeRemote n => { st with vals := st.vals ++ [kvOf line], remotes := addUnique n st.remotes }
 
 structure Source where
   lines : List Bytes
